@@ -13,7 +13,8 @@
 (*         nodes named by their child path.                                   *)
 (*         exp: "own" the pattern is the target's own AST, "mut" the own AST  *)
 (*         with one leaf changed, "none" anything else.                       *)
-(*  search [p, t, form, nested, on, walk, lv, acc, wtags, found, flv, ftags]  *)
+(*  search [p, t, form, nested, on, scope, walk, lv, ci, acc, wtags, found,   *)
+(*          flv, ftags]                                                       *)
 (*         walk/lv: nodes (and leaving flags) of walk(True, on, ...) with the *)
 (*         same parameters; acc/wtags: answer of an individual match() on     *)
 (*         each of them; found/flv/ftags: what search() yielded.              *)
@@ -64,13 +65,23 @@ Keep(e, par, i, kept) ==        \* kept: sequence of walk indices already select
   ELSE LET pruned == ~e.nested /\ \E k \in 1..Len(kept) : IsAnc(par, e.walk[kept[k]], e.walk[i])    \* PruneNested
        IN Keep(e, par, i + 1, IF e.acc[i] /\ ~pruned THEN Append(kept, i) ELSE kept)
 
+(* Classification only (known finding): with scope = TRUE the only disagreement is that search omits nodes lying in  *)
+(* the first iterator of a comprehension (e.ci, an oracle fact computed from the child path), nothing else differs.     *)
+OnlyCompIterOmitted(e, kept) ==
+  LET miss == {k \in 1..Len(kept) : ~\E j \in 1..Len(e.found) : e.found[j] = e.walk[kept[k]] /\ e.flv[j] = e.lv[kept[k]]}
+      rest == SelectSeq(kept, LAMBDA i : \E j \in 1..Len(e.found) : e.found[j] = e.walk[i] /\ e.flv[j] = e.lv[i])
+  IN /\ e.scope /\ miss # {}
+     /\ \A k \in miss : e.ci[kept[k]]
+     /\ Len(rest) = Len(e.found) /\ \A k \in 1..Len(rest) : e.found[k] = e.walk[rest[k]]
+
 SearchClauses(e, par) ==
   LET kept == Keep(e, par, 1, <<>>)
-      class == e.cls \o "/" \o e.form \o "/" \o e.on \o (IF e.nested THEN "" ELSE "/flat") IN
+      filt == /\ Len(e.found) = Len(kept)
+              /\ \A k \in 1..Len(kept) : e.found[k] = e.walk[kept[k]] /\ e.flv[k] = e.lv[kept[k]]
+      class == e.cls \o "/" \o e.form \o "/" \o e.on \o (IF e.nested THEN "" ELSE "/flat")
+                 \o (IF ~filt /\ OnlyCompIterOmitted(e, kept) THEN "/scope-compiter" ELSE IF e.scope THEN "/scope" ELSE "") IN
   {Cl("NoException", e.exc = "", class),
-   Cl("SearchIsFilter", /\ Len(e.found) = Len(kept)
-                        /\ \A k \in 1..Len(kept) : k <= Len(e.found) =>
-                              e.found[k] = e.walk[kept[k]] /\ e.flv[k] = e.lv[kept[k]], class)}
+   Cl("SearchIsFilter", filt, class)}
   \cup (IF Len(e.found) = Len(kept)
         THEN {Cl("SearchTags", \A k \in 1..Len(kept) : e.ftags[k] = e.wtags[kept[k]], class)} ELSE {})
 
